@@ -1027,6 +1027,10 @@ ws_read_frame_cb(nni_ws *ws, ws_frame *frame)
 		ws_frame_fini(frame);
 		break;
 	case WS_CLOSE:
+		if (frame->len > 125) {
+			ws_close(ws, WS_CLOSE_PROTOCOL_ERR);
+			return;
+		}
 		// if we did not send a close frame yet, do so.
 		// (this might be a response to our close)
 		ws->peer_closed = true;
